@@ -268,7 +268,7 @@ func c13Char(c *Ctx, s *C13Spec) {
 	if p != nil && m.Emptied == 0 && cfg.Length >= 1 && cfg.Length <= 64 {
 		sp := under(NewTape(TapeSpec{Mode: "raw"}), func(r *OpResult) { r.F = float64(rec.SuccessProbability()) })
 		c.Eval(1)
-		c.T(sp.brief(), sp.Out.String())
+		c.T(sp.brief())
 		if sp.Kind != "ok" {
 			c.Violate("panic", "success-probability-panic", "%s: SuccessProbability() %s", desc, sp.brief())
 			return
